@@ -296,3 +296,19 @@ def add_neg_inf_profile(rnd, cfg, lib_idx=0, p=0.15):
     rows = sorted(rnd.sample(range(n), k))
     cfg.setdefault("ll_override", {})[str(lib_idx)] = {"rows": rows, "value": "-inf"}
     return True
+
+
+def add_arg_types(rnd, op, p=0.2):
+    """With probability p ask for some integer / boolean options to be passed as numpy scalars (or 1 for True)."""
+    if rnd.random() >= p:
+        return
+    kt = {}
+    for k, val in op.get("kw", {}).items():
+        if isinstance(val, bool):
+            if val and rnd.random() < 0.7:
+                kt[k] = rnd.choice(["np.bool", "int01"])
+        elif isinstance(val, int) and k in ("n_prior_samples", "max_posterior_samples", "max_prior_samples", "n_requested_samples", "init_batch_size", "n_batches", "n_linear_samples"):
+            if rnd.random() < 0.6:
+                kt[k] = rnd.choice(["i8", "i8", "i4"])
+    if kt:
+        op["kw_types"] = kt
